@@ -11,7 +11,8 @@ PROP = {
             "(VerifServerSnapshot) and the probe outcome (response / closed) are compared with the labelled transition system. Idle "
             "scenario: k idle connections must be closed no earlier than the timeout after their last activity (and within +600 ms), "
             "slots free again, new connection served."
-            " Fixed traces also restart the server while the teardown of an old session is still pending (X1 P S C2 M ...): the limit must hold for the connections admitted after the restart.",
+            " Fixed traces also restart the server while the teardown of an old session is still pending (X1 P S C2 M ...): the limit must hold for the connections admitted after the restart."
+            " Scenario idle also with connections that never complete a first request (silent; stalled inside the MBAP header; stalled inside the body): the deadline armed at admission must end the session and free the slot.",
     "assumptions": ["goroutine scheduling and socket close semantics are exercised, not modelled; idle-expiry timing relies on Go's net deadlines"],
 }
 
